@@ -274,7 +274,9 @@ def _run_random(run: Any) -> None:
     """Beyond the exhaustive bound: 5..7 areas with arbitrary (off-grid) coordinates on rings and
     lines of 80 / 81 bases."""
     rng = run.rng
-    while not run.out_of_time():
+    for _ in range(40000):                 # bounded, so that the evidence stays of a sane size
+        if run.out_of_time():
+            break
         length = rng.choice((80, 81))
         circular = rng.random() < 0.7
         areas = []
